@@ -94,6 +94,9 @@ func main() {
 		for _, v := range c.R.Violations {
 			fmt.Printf("  VIOL %s: %s\n", v.Sig, v.Detail)
 		}
+		for _, v := range c.R.Notes {
+			fmt.Printf("  NOTE %s\n", v)
+		}
 		for _, v := range c.R.Inconclusive {
 			fmt.Printf("  INCONCLUSIVE %s\n", v)
 		}
